@@ -5,6 +5,7 @@ import (
 	"go/constant"
 	"go/token"
 	"go/types"
+	"os"
 	"sort"
 	"strconv"
 	"strings"
@@ -19,6 +20,7 @@ func init() {
 		Pkgs: []string{"./autoconf"},
 		Explain: "Decided (structural necessary conditions of 'an interrupted cache update never costs the cached configuration'): " +
 			"O1 the versioned cache file (the name pattern accepted by the cache lister) is either (A) created atomically: no os.WriteFile/os.Create/os.OpenFile on the final name anywhere on the call chain from the saver, the final name is only produced by os.Rename from an os.CreateTemp file whose name pattern the lister rejects, and the Rename is reached only after the data was written without error; or (B) the cached reader falls back: a read or parse error of one cache file leads back to reading the next (older) file instead of leaving the reader; " +
+			"O1b (R-API, who-may-call) no function of package autoconf creates or overwrites a file by a direct truncate-then-write (os.WriteFile, os.Create, os.OpenFile for writing) other than on an os.CreateTemp name: every final name in the cache directory is produced only by the atomic writer (temp + rename) — idiom (B) does not help when a direct write hits an existing valid version (the versioned name has one-second resolution); " +
 			"O2 the cached reader hands out a configuration only on the nil-error edges of os.ReadFile and json.Unmarshal of that very object; GetCached uses the fallback only on the reader's error edge; " +
 			"O3 a fetched body is saved only after json.Unmarshal and validateConfig of the same body/config succeeded; " +
 			"O4 the lister orders files newest first (comparator compares base names of (b, a)) and the reader starts at index 0; " +
@@ -312,6 +314,51 @@ func runC45(c *an.Ctx) {
 				"not atomic: "+strings.Join(whyNoA, "; ")+"; no reader fallback: "+strings.Join(whyNoB, "; "))
 	}
 
+	// ---- O1b: who may create files: a final name in the cache directory is only
+	// ever produced by the atomic writer (CreateTemp + write + Rename). A direct
+	// truncate-then-write (os.WriteFile / os.Create / os.OpenFile for writing) on
+	// a final name can hit an existing valid version (the versioned name has one
+	// second resolution) and truncate it in place, which no reader fallback repairs.
+	{
+		stopAtCalls := &an.DepOpts{Stop: func(w ssa.Value) bool { _, is := w.(*ssa.Call); return is }}
+		isTempName := func(v ssa.Value) bool {
+			for _, l := range an.Deps(v, stopAtCalls) {
+				call, ok := an.IsCallTo(l, an.M("os", "File", "Name"))
+				if !ok {
+					continue
+				}
+				for _, r := range an.Deps(an.Recv(call), stopAtCalls) {
+					if _, isT := an.IsCallTo(r, an.M("os", "", "CreateTemp")); isT {
+						return true
+					}
+				}
+			}
+			return false
+		}
+		nDirect := 0
+		for _, f := range fns {
+			for _, call := range an.Calls(f, an.M("os", "", "WriteFile"), an.M("os", "", "Create"), an.M("os", "", "OpenFile")) {
+				as := an.Args(call)
+				if an.Callee(call).Name == "OpenFile" && len(as) >= 2 {
+					if k, ok := an.ConstOf(as[1]); ok {
+						if v, exact := constant.Int64Val(k); exact && v&int64(os.O_WRONLY|os.O_RDWR|os.O_CREATE|os.O_TRUNC|os.O_APPEND) == 0 {
+							continue // read-only open
+						}
+					}
+				}
+				if len(as) == 0 || isTempName(as[0]) {
+					continue
+				}
+				nDirect++
+				c.Bad("O1", "R-API", an.FuncName(f), "file-created-only-by-atomic-writer:"+an.Callee(call).Name, call.Pos(),
+					an.FuncName(f)+" creates/overwrites a file with "+an.Callee(call).String()+" instead of the atomic writer (temp file in the same directory, then os.Rename): the write truncates the destination first, and the destination can be an existing valid version (the versioned cache name has one-second resolution, so a second update in the same second reuses it) — a process stopped during the write leaves that newest valid version truncated, and the cached read returns an older version or the built-in fallback")
+			}
+		}
+		if nDirect == 0 {
+			c.OK("O1", "R-API", "autoconf", "file-created-only-by-atomic-writer", lister.Pos(), "no direct truncate-then-write file creation in package autoconf: final names are only produced by rename from a temp file")
+		}
+	}
+
 	// ---- O2: reader returns a config only after successful read + parse
 	nO2 := 0
 	subjects := append([]*ssa.Function{}, readers...)
@@ -548,6 +595,28 @@ func runC45(c *an.Ctx) {
 			// call of the function value loaded from c.fallbackFunc
 			if fl, _ := an.LoadedField(call.Common().Value); fl != fFallback {
 				continue
+			}
+			// an offline cached read function must not take the fallback because
+			// some other callee failed on a file that is not a listed config file
+			offline := false
+			for _, k := range an.AllCalls(f) {
+				if g := an.Callee(k).Static; g != nil && inPkg[g] && reachesReader[g] && !reachesNet[g] {
+					offline = true
+				}
+				if g := an.Callee(k).Static; g != nil && inPkg[g] && reachesNet[g] {
+					offline = false
+					break
+				}
+			}
+			for _, k := range an.AllCalls(f) {
+				g := an.Callee(k).Static
+				if !offline || g == nil || !inPkg[g] || reachesReader[g] || foreign[g] == "" || len(an.ErrResult(k)) == 0 || !an.Reaches(f, k, call, nil, nil) {
+					continue
+				}
+				if an.GuardedBy(f, k, call, an.NilEdges(f, an.ErrResult(k), false)) {
+					c.Check(false, "O6", "R-FLOW", an.FuncName(f), "fallback-not-caused-by-other-files", call.Pos(), "",
+						an.FuncName(f)+" returns the built-in fallback because "+foreign[g]+", although the config files were not even tried: the files of one cache update are written one after the other (config first, metadata last), so a process stopped in between leaves a complete validated config file but "+an.FuncName(f)+" returns the built-in fallback")
+				}
 			}
 			for _, k := range an.AllCalls(f) {
 				g := an.Callee(k).Static
